@@ -29,7 +29,7 @@ ASSUMPTIONS = ["bounded liveness: once the last job is enqueued and no fault is 
                "10 s + 2 s x jobs (+ injected stall time) of virtual time",
                "no pre-emption inside semantiva.core / pipeline execution (a job run is one scheduling step)"]
 REQUIRED_PROBES = ["failing_job", "slow_job", "multi_worker", "late_worker", "batch_ge_10", "fire_and_forget_job_mixed_in", "two_failing_jobs",
-                   "same_yaml_path_rewritten", "failing_job_with_two_argument_exception"]
+                   "same_yaml_path_rewritten", "failing_job_with_two_argument_exception", "job_enqueued_from_done_callback"]
 CONFIG = {
     "quick": {"runs": 2500, "budget_s": 240, "timeout_s": 120, "per_fork": 4},
     "thorough": {"runs": 150000, "budget_s": 1600, "timeout_s": 180, "per_fork": 6},
@@ -75,6 +75,10 @@ def generate(rng: random.Random, tier: str, seed: int) -> dict:
             job["nodes"] = job["nodes"] + [{"processor": "SvSlow", "parameters": {"delay": rng.choice([0.3, 1.0, 2.5])}}]
             job["slow"] = True
         jobs.append(job)
+    chained = None
+    if rng.random() < 0.15:
+        c1 = gen.gen_pipeline(rng, max_nodes=3, allow_file_sink=False)
+        chained = {"nodes": c1["nodes"], "context": c1["context"], "init_data": c1["init_data"]}     # enqueued from a done-callback
     yaml_pair = None
     if rng.random() < 0.2:
         a1 = gen.gen_pipeline(rng, max_nodes=3, allow_file_sink=False)
@@ -84,7 +88,7 @@ def generate(rng: random.Random, tier: str, seed: int) -> dict:
     nworkers = rng.randint(1, 4)
     return {"jobs": jobs, "workers": [{"start_delay": rng.choice([0.0, 0.0, 0.0, 0.4, 1.5]), "poll": rng.choice([0.1, 0.1, 0.05, 0.2])}
                                       for _ in range(nworkers)],
-            "yaml_pair": yaml_pair, "strategy": rng.choice(FAIR_STRATEGIES), "sched_seed": rng.getrandbits(48), "choices": None}
+            "yaml_pair": yaml_pair, "chained": chained, "strategy": rng.choice(FAIR_STRATEGIES), "sched_seed": rng.getrandbits(48), "choices": None}
 
 
 def _expected(job: dict, w) -> dict:
@@ -124,6 +128,8 @@ def execute(sc: dict, seed: int) -> dict:
         bound = 10.0 + 2.0 * njobs + stall_total
         futures: list = [None] * njobs
         pair_futures: list = []
+        chain_futures: list = []
+        chain_expected = _expected(sc["chained"], w) if sc.get("chained") else None
         pair_expected = [_expected(j, w) for j in (sc.get("yaml_pair") or [])]
         info: dict = {"t_last_enqueue": None, "t_all_done": None, "gave_up": False}
         with threads.Installed(sched, [im, qo, wk]):
@@ -156,9 +162,17 @@ def execute(sc: dict, seed: int) -> dict:
                     futures[i] = orch.enqueue(cfg_arg, data=data, context=ctx_arg,
                                               return_future=not job.get("no_future"))
                     sched.log("enqueue", i)
+                    if i == 0 and sc.get("chained") and futures[0] is not None:
+                        # a follow-up job is enqueued from the first job's done-callback (runs on whichever task completes it)
+                        def _chain(_f, cj=sc["chained"]):
+                            d2 = None if cj["init_data"] is None else FloatDataType(float(cj["init_data"]))
+                            chain_futures.append(orch.enqueue(copy.deepcopy(cj["nodes"]), data=d2,
+                                                              context=ContextType(copy.deepcopy(cj["context"])), return_future=True))
+                        futures[0].add_done_callback(_chain)
                 info["t_last_enqueue"] = sched.now
                 while True:
-                    if all(f.done() for f in futures if f is not None):
+                    if all(f.done() for f in futures if f is not None) and all(f.done() for f in chain_futures) and \
+                            (not sc.get("chained") or futures[0] is None or chain_futures):
                         info["t_all_done"] = sched.now
                         break
                     if sched.now - info["t_last_enqueue"] > bound:
@@ -234,6 +248,17 @@ def execute(sc: dict, seed: int) -> dict:
                                            + (f"; equals job {other[0]}'s result" if other else "")))
                 if not isinstance(jid, str) or not jid:
                     viols.append(oracles.V("result", "job_id_annotation_missing", f"job {i}: context has no job_id annotation"))
+        if outcome == "completed" and sc.get("chained") and futures and futures[0] is not None:
+            stats["probe.job_enqueued_from_done_callback"] = 1
+            if not chain_futures or not chain_futures[0].done():
+                viols.append(oracles.V("liveness", "job_enqueued_from_done_callback_never_completes",
+                                       f"a job enqueued from job 0's done-callback did not complete within the bound (callback ran: {bool(chain_futures)})"))
+            elif chain_expected["ok"] and chain_futures[0].exception() is None:
+                data, ctx = chain_futures[0].result()
+                got_ctx = ctx_snapshot(ctx)
+                got_ctx.pop("job_id", None)
+                if harness.canon(_data_repr(data)) != harness.canon(chain_expected["data"]) or harness.canon(got_ctx) != harness.canon(chain_expected["context"]):
+                    viols.append(oracles.V("result", "chained_job_wrong_result", f"got {_data_repr(data)} {got_ctx}"))
         if outcome == "completed" and pair_futures:
             stats["probe.same_yaml_path_rewritten"] = 1
             for k, (fut, exp) in enumerate(zip(pair_futures, pair_expected)):
